@@ -8,7 +8,7 @@ from props.common import scale, depth_of, schema_tags, same, load_corpus
 from props.c01 import gen_cases
 
 THEOREMS = ["c02_encodeLong_eq_spec", "c02_bytes", "c02_little_endian"]
-TARGETS = ["Properties.Tables", "Properties.C02"]
+TARGETS = ["Properties.TablesCodec", "Properties.C02"]
 
 BOUNDARY_LONGS = sorted(set([s * (2 ** (7 * k - 1)) + d for k in range(1, 10) for s in (1, -1) for d in (-2, -1, 0, 1, 2)] +
                             [2 ** 31 - 1, -2 ** 31, 2 ** 63 - 1, -2 ** 63, 0, 1, -1, 2 ** 32, -2 ** 32]))
